@@ -458,7 +458,7 @@ class C16(Prop):
                     rel = rng.choice([f"{v[0]}.{v[1]}", f"{v[0]}.{v[1]}.1", f"{v[0]}", "", "x"])
                     yield ("plat.ios", [core.enc(rel), core.enc(ma), rng.choice(["~", enc_pair(v)]), rng.choice(["~", core.enc(ma)])])
             else:
-                data = E.build(E.gen_desc(rng))
+                data = E.build(E.gen_desc_huge(rng) if rng.random() < 0.2 else E.gen_desc(rng))
                 yield (rng.choice(["elf.parse", "elf.interp", "elf.interp"]), [enc_bytes(data)])
             k += 1
 
